@@ -42,36 +42,53 @@ def report(ctx, rej, failures):
                    {"record": r, "failed": rj["failed"], "expected_by_spec": rj["expected"]})
 
 
-def run(ctx):
-    # 1. design-level model check
-    cfgs = ["MC_AbiCodec_q_C09"] if ctx.quick else ["MC_AbiCodec_d1_C09", "MC_AbiCodec_d2_C09", "MC_AbiCodec_d3_C09"]
+def model_check(ctx, cfgs, workers):
     for c in cfgs:
-        mc = ctx.tlc("MC_AbiCodec", c, workers=4, xss="64m", xmx="6g", timeout=3000)
+        mc = ctx.tlc("MC_AbiCodec", c, workers=workers, xss="64m", xmx="6g", timeout=3000)
         if mc.violated:
             m = abigen.re.search(r'"FAILED-FACTS", (\{[^}]*\}), "(.*)">>', mc.out)
             ctx.report("model:%s:%s" % (c, m.group(1) if m else mc.violated), "AbiCodec.tla: a statement fails for a type tree",
                        {"cfg": c, "failed": m.group(1) if m else None, "type": m.group(2).replace('\\"', '"') if m else None})
-    # 2. pool
-    recs = abigen.gen_pool(ctx)
-    # 3. programs
-    pkgs = abigen.c09_packages(recs, "ca", per_pkg=36)
-    trace, failures = abigen.run_and_collect(ctx, pkgs, procs=8)
-    # every 6th package (quick: the first) is also built with the release profile
-    rel = [dict(p, id=p["id"].replace("ca", "cr")) for p in (pkgs[:1] if ctx.quick else pkgs[::6])]
-    t2, f2 = abigen.run_and_collect(ctx, rel, procs=8, profile="release")
-    trace += t2
-    failures += f2
-    rjobs = ret_jobs(ctx, recs)
-    rres = abigen.run_config_packages(ctx, [{k: v for k, v in j.items() if k not in ("t", "v")} for j in rjobs], procs=6)
+
+
+def ret_observations(ctx, rjobs):
+    trace, failures = [], []
+    rres = abigen.run_config_packages(ctx, [{k: v for k, v in j.items() if k not in ("t", "v")} for j in rjobs], procs=3 if ctx.quick else 6)
     for j in rjobs:
         b = rres[j["id"]]["built"]
         if b is None or not b.get("ok"):
             errs = [x.strip()[-500:] for x in ((b or {}).get("diag") or "").split("____") if x.strip().startswith("error")]
-            failures.append({"pkg": j["id"], "kind": "build", "detail": "script returning %s: %s %s" % (abigen.short_type(j["t"]), (b or {}).get("err"), errs[:1]),
-                             "source": j["files"]["src/main.sw"]})
+            failures.append({"pkg": j["id"], "kind": "build", "profile": j["profile"], "source": j["files"]["src/main.sw"],
+                             "detail": "script returning %s: %s | %s" % (abigen.short_type(j["t"]), (b or {}).get("err"), " | ".join(errs[:1]))})
             continue
         o = abigen.observe_run(rres[j["id"]]["runs"]["r0"])
         trace.append({"ev": "Ret", "id": j["id"], "t": j["t"], "v": j["v"], "ret": o["ret"], "logs": o["logs"], "out": o["out"]})
+    return trace, failures
+
+
+def run(ctx):
+    from concurrent.futures import ThreadPoolExecutor
+    cfgs = ["MC_AbiCodec_q_C09"] if ctx.quick else ["MC_AbiCodec_d1_C09", "MC_AbiCodec_d2_C09", "MC_AbiCodec_d3_C09"]
+    with ThreadPoolExecutor(max_workers=2) as ex:
+        # 1. design-level model check; 2. pool.  quick: side by side (3 + 1 TLC workers); thorough: one after the other
+        if ctx.quick:
+            f_mc = ex.submit(model_check, ctx, cfgs, 3)
+            recs = abigen.gen_pool(ctx)
+            f_mc.result()
+        else:
+            model_check(ctx, cfgs, 4)
+            recs = abigen.gen_pool(ctx)
+        # 3. programs: every package in debug, every 6th (quick: the first) also in release; return-data scripts alongside
+        pkgs = abigen.c09_packages(recs, "ca", per_pkg=36)
+        rel = [dict(p, id=p["id"].replace("ca", "cr"), profile="release") for p in (pkgs[:1] if ctx.quick else pkgs[::6])]
+        rjobs = ret_jobs(ctx, recs)
+        ctx.build_vh("vh-exec")
+        ctx.build_vh("vh-config")
+        f_ret = ex.submit(ret_observations, ctx, rjobs)
+        trace, failures = abigen.run_and_collect(ctx, pkgs + rel, procs=8)
+        t2, f2 = f_ret.result()
+        trace += t2
+        failures += f2
     # 4. the spec decides
     validated, rej = abigen.validate_trace(ctx, "Trace_AbiCodec", "Trace_AbiCodec", trace, "tr")
     report(ctx, rej, failures)
